@@ -12,6 +12,8 @@ pub enum Prop {
     C09,
     C11,
     C13,
+    /// all storage variants agree (runs the generators of the other four, plus `reopen`)
+    C06,
 }
 
 impl Prop {
@@ -21,6 +23,7 @@ impl Prop {
             "C09" => Some(Prop::C09),
             "C11" => Some(Prop::C11),
             "C13" => Some(Prop::C13),
+            "C06" => Some(Prop::C06),
             _ => None,
         }
     }
@@ -30,6 +33,7 @@ impl Prop {
             Prop::C09 => "C09",
             Prop::C11 => "C11",
             Prop::C13 => "C13",
+            Prop::C06 => "C06",
         }
     }
 }
@@ -144,6 +148,8 @@ pub struct Generator {
     queue: VecDeque<Op>,
     keys: Vec<Val>,
     vals: Vec<Val>,
+    /// percentage of top-level positions at which a `reopen` line is emitted (C06)
+    pub reopen_pct: u64,
 }
 
 impl Generator {
@@ -174,6 +180,7 @@ impl Generator {
             queue: VecDeque::new(),
             keys: key_pool(),
             vals: val_pool(),
+            reopen_pct: 0,
         }
     }
 
@@ -247,6 +254,9 @@ impl Generator {
                 if self.prop == Prop::C08 && self.since_dump >= 10 {
                     return Some(Op::Dump);
                 }
+                if self.reopen_pct > 0 && self.rng.pct(self.reopen_pct) {
+                    return Some(Op::Reopen);
+                }
                 let w: &[u32; 23] = match self.prop {
                     Prop::C08 => &W_C08,
                     Prop::C09 => &W_C09,
@@ -257,7 +267,7 @@ impl Generator {
                             &W_C11
                         }
                     }
-                    Prop::C13 => &W_C13,
+                    Prop::C13 | Prop::C06 => &W_C13,
                 };
                 Some(self.gen_kind_retry(refm, w, false))
             }
@@ -449,7 +459,7 @@ impl Generator {
 
     fn replace_pct(&self) -> u64 {
         match self.prop {
-            Prop::C13 => 75,
+            Prop::C13 | Prop::C06 => 75,
             Prop::C09 | Prop::C11 => 50,
             Prop::C08 => 20,
         }
